@@ -1,7 +1,7 @@
 SPECIFICATION Spec
 CONSTANTS
-  Pool = {"caller", "calls_bad", "ct_good", "ct_bad", "ct_expr", "closure", "use_mono", "use_struct", "loops"}
-  EntryOps = {"caller"}
+  Pool = {"calls_bad", "ct_good", "ct_bad", "ct_expr", "closure", "use_mono", "use_struct", "loops"}
+  EntryOps = {}
   MaxLen = 3
   EmitHist = TRUE
 INVARIANT NoStaleRead
